@@ -26,6 +26,7 @@ CONSTANTS EP,           \* endpoint names
 VARIABLES engine,       \* which proxy engine this stack runs
           status,       \* [EP -> endpoint status in the repository]
           down,         \* [EP -> BOOLEAN]  backend listener closed (connection refused)
+          boom,         \* [EP -> BOOLEAN]  the next attempt on this endpoint panics inside olla (fault injection)
           models,       \* [EP -> set of model names in the endpoint's latest listing]
           ebFail, ebOpen,   \* olla engine breaker per endpoint: consecutive failures, open?
           rq,           \* [arrived request ids -> per-request record]
@@ -33,7 +34,7 @@ VARIABLES engine,       \* which proxy engine this stack runs
           cnt,          \* [EP -> [ok, fail]] per-endpoint attempt counters (stats.Collector)
           scn
 
-vars == <<engine, status, down, models, ebFail, ebOpen, rq, gauge, cnt, scn>>
+vars == <<engine, status, down, boom, models, ebFail, ebOpen, rq, gauge, cnt, scn>>
 
 None == "none"
 TokenLen == 11   \* bytes of one body token "[e1:1:0000]"
@@ -54,6 +55,7 @@ NewReq(cands, route) ==
 Init == /\ engine \in Engines
         /\ status = [e \in EP |-> "healthy"]
         /\ down = [e \in EP |-> FALSE]
+        /\ boom = [e \in EP |-> FALSE]
         /\ models = [e \in EP |-> {"m1"}]
         /\ ebFail = [e \in EP |-> 0] /\ ebOpen = [e \in EP |-> FALSE]
         /\ rq = <<>>
@@ -64,10 +66,10 @@ Init == /\ engine \in Engines
 -----------------------------------------------------------------------------
 (* Environment *)
 SetDown(e, d) == /\ down' = [down EXCEPT ![e] = d] /\ down[e] # d
-                 /\ UNCHANGED <<engine, status, models, ebFail, ebOpen, rq, gauge, cnt>>
+                 /\ UNCHANGED <<engine, status, boom, models, ebFail, ebOpen, rq, gauge, cnt>>
 \* a health round stored status s for e (see HealthSched for how s is derived)
 HealthStore(e, s) == /\ status' = [status EXCEPT ![e] = s]
-                     /\ UNCHANGED <<engine, down, models, ebFail, ebOpen, rq, gauge, cnt>>
+                     /\ UNCHANGED <<engine, down, boom, models, ebFail, ebOpen, rq, gauge, cnt>>
 
 (* Olla *)
 \* the request arrives: candidate snapshot = endpoints whose stored status is exactly healthy and
@@ -75,7 +77,7 @@ HealthStore(e, s) == /\ status' = [status EXCEPT ![e] = s]
 Arrive(r, route, model) ==
     /\ r \notin Reqs
     /\ rq' = (r :> NewReq({e \in EP : status[e] = "healthy" /\ model \in models[e]}, route)) @@ rq
-    /\ UNCHANGED <<engine, status, down, models, ebFail, ebOpen, gauge, cnt>>
+    /\ UNCHANGED <<engine, status, down, boom, models, ebFail, ebOpen, gauge, cnt>>
 
 EBRecord(e, ok) ==
     IF engine # "olla" THEN UNCHANGED <<ebFail, ebOpen>>
@@ -96,7 +98,7 @@ AttemptStart(r, e, kind, pst, pn, pk, pb, sig) ==
                                          !.att = @ + 1, !.kind = kind, !.pst = pst, !.pn = pn, !.pk = pk, !.pb = pb,
                                          !.sig = sig]]
     /\ gauge' = [gauge EXCEPT ![e] = @ + 1]
-    /\ UNCHANGED <<engine, status, down, models, ebFail, ebOpen, cnt>>
+    /\ UNCHANGED <<engine, status, down, boom, models, ebFail, ebOpen, cnt>>
 
 \* how the attempt ends is decided by the plan
 AttemptEnd(r) ==
@@ -125,7 +127,7 @@ AttemptEnd(r) ==
                        /\ UNCHANGED status
                  /\ EBRecord(e, FALSE)
                  /\ cnt' = [cnt EXCEPT ![e].fail = @ + 1]
-    /\ UNCHANGED <<engine, down, models>>
+    /\ UNCHANGED <<engine, down, boom, models>>
 
 \* an attempt on an endpoint whose listener is closed: connection refused, the backend sees nothing
 Refused(r, e) ==
@@ -135,7 +137,18 @@ Refused(r, e) ==
     /\ status' = [status EXCEPT ![e] = "offline"]
     /\ EBRecord(e, FALSE)
     /\ cnt' = [cnt EXCEPT ![e].fail = @ + 1]
-    /\ UNCHANGED <<engine, down, models, gauge>>
+    /\ UNCHANGED <<engine, down, boom, models, gauge>>
+
+SetBoom(e, b) == /\ boom' = [boom EXCEPT ![e] = b]
+                 /\ UNCHANGED <<engine, status, down, models, ebFail, ebOpen, rq, gauge, cnt>>
+\* the attempt panics inside olla after it was counted in the gauge: the gauge must come back (C19: "whatever
+\* mix of ... panics"), the attempt is recorded, and the request is over (the server drops the connection)
+AttemptPanics(r, e) ==
+    /\ r \in Reqs /\ rq[r].phase = "choosing" /\ e \in Untried(r) /\ ~rq[r].started
+    /\ boom[e] /\ ~down[e] /\ ~(engine = "olla" /\ ebOpen[e])
+    /\ rq' = [rq EXCEPT ![r] = [@ EXCEPT !.tried = @ \cup {e}, !.phase = "crashed", !.last = "panic"]]
+    /\ cnt' = [cnt EXCEPT ![e].fail = @ + 1]
+    /\ UNCHANGED <<engine, status, down, boom, models, ebFail, ebOpen, gauge>>
 
 \* olla engine: the endpoint's circuit is open -> skipped, the request goes on (C04)
 BreakerSkip(r, e) ==
@@ -144,18 +157,19 @@ BreakerSkip(r, e) ==
     \* the engine books the refused dispatch as a failed request on that endpoint (allowed: the
     \* properties only fix how ATTEMPTS are counted)
     /\ cnt' = [cnt EXCEPT ![e].fail = @ + 1]
-    /\ UNCHANGED <<engine, status, down, models, ebFail, ebOpen, gauge>>
+    /\ UNCHANGED <<engine, status, down, boom, models, ebFail, ebOpen, gauge>>
 
 \* the request fails only when every candidate has been tried or skipped (C04)
 GiveUp(r) ==
     /\ r \in Reqs /\ rq[r].phase = "choosing" /\ Untried(r) = {}
     /\ rq' = [rq EXCEPT ![r] = [@ EXCEPT !.phase = "failed"]]
-    /\ UNCHANGED <<engine, status, down, models, ebFail, ebOpen, gauge, cnt>>
+    /\ UNCHANGED <<engine, status, down, boom, models, ebFail, ebOpen, gauge, cnt>>
 
 (* What the client must see, as a function of the request's final state *)
 RespKind(r) == CASE rq[r].phase = "responded" -> "full"
                  [] rq[r].phase = "truncated" -> "partial"
                  [] rq[r].phase = "failed"    -> "error"
+                 [] rq[r].phase = "crashed"   -> "crash"
                  [] OTHER -> None
 \* the client has read its response; v is the logged view [st, from, e, a, n, complete, junk, bodyClass]
 Translated(route) == route \in {"anthropic", "anthropic_stream"}
@@ -177,12 +191,13 @@ ClientDone(r, v) ==
                /\ v.st = q.pst /\ v.n <= q.pk /\ v.mixed = FALSE
                /\ v.junk < TokenLen      \* at most a torn token; never text of olla's own making
          [] RespKind(r) = "partial" /\ Translated(q.route) -> TRUE
+         [] RespKind(r) = "crash" -> ~v.from /\ (v.st = 0 \/ v.st >= 500) /\ v.n = 0
          [] RespKind(r) = "error" ->                       \* C05: a failure is reported as a failure
                /\ ~v.from /\ v.st >= 400 /\ v.n = 0 /\ v.bodyClass # "empty"
                /\ (Translated(q.route) => v.bodyClass = "anthropic_error")
                /\ v.ms < PromptMs
     /\ rq' = [rq EXCEPT ![r] = [@ EXCEPT !.phase = "done", !.last = RespKind(r)]]
-    /\ UNCHANGED <<engine, status, down, models, ebFail, ebOpen, gauge, cnt>>
+    /\ UNCHANGED <<engine, status, down, boom, models, ebFail, ebOpen, gauge, cnt>>
 
 -----------------------------------------------------------------------------
 (* MC: the environment picks kinds; the client view is the one the spec itself prescribes *)
@@ -191,6 +206,8 @@ SpecView(r) == LET q == rq[r] IN
                                      n |-> q.pn, junk |-> q.pb, mixed |-> FALSE, bodyClass |-> "tokens", ms |-> 1]
       [] RespKind(r) = "partial" -> [from |-> TRUE, e |-> q.cur, a |-> q.att, st |-> q.pst, complete |-> FALSE,
                                      n |-> q.pk, junk |-> 0, mixed |-> FALSE, bodyClass |-> "tokens", ms |-> 1]
+      [] RespKind(r) = "crash"   -> [from |-> FALSE, e |-> None, a |-> 0, st |-> 0, complete |-> FALSE,
+                                     n |-> 0, junk |-> 0, mixed |-> FALSE, ms |-> 1, bodyClass |-> "empty"]
       [] OTHER                   -> [from |-> FALSE, e |-> None, a |-> 0, st |-> 502, complete |-> TRUE,
                                      n |-> 0, junk |-> 1, mixed |-> FALSE, ms |-> 1,
                                      bodyClass |-> IF Translated(q.route) THEN "anthropic_error" ELSE "text"]
@@ -205,6 +222,8 @@ Next ==
     \/ \E r \in Reqs : \E e \in EP : Refused(r, e) /\ UNCHANGED scn
     \/ \E r \in Reqs : \E e \in EP : BreakerSkip(r, e) /\ UNCHANGED scn
     \/ \E r \in Reqs : GiveUp(r) /\ UNCHANGED scn
+    \/ \E e \in EP : SetBoom(e, TRUE) /\ ~boom[e] /\ scn' = Append(scn, <<"Boom", e>>)
+    \/ \E r \in Reqs : \E e \in EP : AttemptPanics(r, e) /\ UNCHANGED scn
     \/ \E r \in Reqs : RespKind(r) # None /\ ClientDone(r, SpecView(r)) /\ UNCHANGED scn
 Spec == Init /\ [][Next]_vars
 
@@ -229,8 +248,8 @@ Conserved == \A e \in EP :
     cnt[e].ok + cnt[e].fail + Cardinality(InFlight(e)) =
         Cardinality({r \in Reqs : e \in rq[r].tried}) + Cardinality({r \in Reqs : e \in rq[r].skipped})
 TypeOK == /\ \A e \in EP : gauge[e] \in Nat /\ ebFail[e] \in 0..EBThreshold
-          /\ \A r \in Reqs : rq[r].phase \in {"choosing", "attempting", "responded", "truncated", "failed", "done"}
+          /\ \A r \in Reqs : rq[r].phase \in {"choosing", "attempting", "responded", "truncated", "failed", "crashed", "done"}
 
 MCConstraint == Len(scn) <= 9
-View == <<engine, status, down, models, ebFail, ebOpen, rq, gauge, cnt>>
+View == <<engine, status, down, boom, models, ebFail, ebOpen, rq, gauge, cnt>>
 =============================================================================
